@@ -176,10 +176,14 @@ theorem PI.ensureCtx (h : PI ex fl T C s) (a : Nat) (x : Actor) (hx : s.actor a 
           rw [hth]; split
           · exact qc_mkTh _ _
           · exact h.qc j
-        bufCache := fun j => by
+        bufCache := fun j hjr => by
           rw [hth]; split
           · intro hb; exact absurd rfl hb
-          · exact h.bufCache j
+          · rename_i hne
+            refine h.bufCache j ?_
+            rcases List.mem_append.mp hjr with h1 | h1
+            · exact h1
+            · simp at h1; exact absurd h1 hne
         cacheReg := fun i hi => List.mem_append_left _ (h.cacheReg i hi)
         fresh := fun hf => by cases hf
         ctxLt := fun b x' i hb hi => by
@@ -291,10 +295,10 @@ theorem PI.enq {a : Nat} (h : PI (some a) fl T C s) (x : Actor) (hx : s.actor a 
           rcases List.mem_append.mp hr with h2 | h2
           · exact q0.pos r h2
           · rw [List.mem_singleton.mp h2]; exact hsz
-    bufCache := fun j => by
+    bufCache := fun j hjr => by
       rcases hcases j with h1 | ⟨rfl, h1⟩
-      · rw [h1]; exact h.bufCache j
-      · rw [h1, hf.1]; exact h.bufCache j
+      · rw [h1]; exact h.bufCache j hjr
+      · rw [h1, hf.1]; exact h.bufCache j hjr
     ctxLt := fun b y i hy hi => by rw [length_setTh]; exact h.ctxLt b y i hy hi
     pend := fun b y r hy hb hpd => by
       obtain ⟨p1, p2, p3⟩ := h.pend b y r hy hb hpd
